@@ -57,6 +57,9 @@ func TestWorker(t *testing.T) {
 		fmt.Fprintln(os.Stderr, err)
 		os.Exit(2)
 	}
+	if v := envInt("VERIF_BUDGET_SCALE", 1); v > 1 {
+		simrt.BudgetScale = int(v)
+	}
 	simrt.StartWatchdog(time.Duration(envInt("VERIF_WATCHDOG_S", 60)) * time.Second)
 
 	if rp := os.Getenv("VERIF_REPLAY"); rp != "" {
